@@ -249,13 +249,18 @@ global_texts = st.one_of(
 @st.composite
 def chart_specs(draw, max_segments: int = 8, max_tracks: int = 2, max_notes: int = 16,
                 max_events: int = 5, max_ts: int = 3, max_anchors: int = 2, tempo_values=bpm_values,
-                headers=None, min_tracks: int = 0, min_notes: int = 0, limit_s: int = TIME_LIMIT_S):
+                headers=None, min_tracks: int = 0, min_notes: int = 0, limit_s: int = TIME_LIMIT_S,
+                max_tick_cap: int | None = None, anchor_max: int = 10 ** 11, res=None):
     """A well-formed chart spec plus the generation-side facts a check may want:
     returns {"spec": spec, "res": r, "tempo": [...], "max_tick": M, "tracks_model": {...}}."""
     tmap = draw(tempo_maps(max_segments=max_segments, values=tempo_values,
-                           budget_s=limit_s // 2))
+                           budget_s=limit_s // 2, **({"res": res} if res is not None else {})))
+    if max_tick_cap is not None:
+        tmap["tempo"] = [x for x in tmap["tempo"] if x[0] < max_tick_cap // 2] or [[0, tmap["tempo"][0][1]]]
     tm = TempoModel(tmap["res"], tmap["tempo"])
     max_tick = max(tm.max_tick_within(limit_s) - 1, tm.ticks[-1])
+    if max_tick_cap is not None:
+        max_tick = max(min(max_tick, max_tick_cap), tm.ticks[-1])
     tick_st = tick_strategy(tm, max_tick)
     # sync section
     ts_ticks = sorted(draw(st.sets(tick_st.filter(lambda t: t > 0), max_size=max_ts)))
@@ -265,7 +270,7 @@ def chart_specs(draw, max_segments: int = 8, max_tracks: int = 2, max_notes: int
     for t, n in tmap["tempo"]:
         sync.append([t, "B", n])
     for t in sorted(draw(st.sets(tick_st, max_size=max_anchors))):
-        sync.append([t, "A", draw(st.integers(0, 10 ** 11))])
+        sync.append([t, "A", draw(st.integers(0, anchor_max))])
     order = {"TS": 0, "B": 1, "A": 2}
     sync.sort(key=lambda it: (it[0], order[it[1]]))
     # global events
